@@ -74,6 +74,9 @@ func (x *Exec) builtin(fr *frame, st *State, b *ssa.Builtin, c *ssa.CallCommon, 
 				return one(smt.IntLit(a.Len()))
 			}
 		case *types.Map, *types.Chan:
+			if r, ok := x.mapLen(st, c.Args[0].Type(), args[0]); ok {
+				return one(smt.Ite(smt.Eq(args[0], smt.IntLit(0)), smt.IntLit(0), r))
+			}
 			r := x.freshOf(st, "maplen", types.Typ[types.Int])
 			st.assume(smt.Le(smt.IntLit(0), r))
 			return one(r)
@@ -104,7 +107,10 @@ func (x *Exec) builtin(fr *frame, st *State, b *ssa.Builtin, c *ssa.CallCommon, 
 		if r, ok := x.doCopy(fr, st, c, args); ok {
 			return one(r)
 		}
-	case "close", "delete", "print", "println":
+	case "delete":
+		x.doMapDelete(st, c.Args[0].Type(), args[0], args[1])
+		return []outcome{{st: st}}
+	case "close", "print", "println":
 		return []outcome{{st: st}}
 	case "panic":
 		if in, ok := instr.(ssa.Instruction); ok && in != nil {
